@@ -108,6 +108,13 @@ func ruleA3(r *Run, p *Prog) (write, msg *ssa.Function) {
 	for f := range fns {
 		write = f
 	}
+	inner := write
+	var chainBad string
+	write, chainBad = climbWriterChain(p, inner)
+	if chainBad != "" {
+		r.Ob("A3", FnName(write)+"/writer-helper-once", p.Pos(write.Pos()), false, true, chainBad)
+	}
+	writeSet := p.exclusiveHelpers(write)
 	// terminator sites
 	nEOL := 0
 	for _, f := range p.ModFns {
@@ -118,14 +125,14 @@ func ruleA3(r *Run, p *Prog) (write, msg *ssa.Function) {
 			if c, ok := in.(*ssa.Call); ok {
 				if o := calleeObj(&c.Call); o != nil && o.Name() == "AppendLineBreak" {
 					nEOL++
-					r.Ob("A3", FnName(f)+"/AppendLineBreak", p.Pos(c.Pos()), f == write, true, tern(f == write, "line terminator appended in the function that calls the writer", "a line terminator is appended outside the function that hands the event to the writer"))
+					r.Ob("A3", FnName(f)+"/AppendLineBreak", p.Pos(c.Pos()), writeSet[f], true, tern(writeSet[f], "line terminator appended in the function that calls the writer", "a line terminator is appended outside the function that hands the event to the writer"))
 				}
 			}
 		})
 	}
 	r.Ob("A3", "AppendLineBreak/sites", "-", nEOL == 1, true, fmt.Sprintf("%d terminator site(s)", nEOL))
 	// the writer call executes at most once per call of write
-	if mn, mx, ok := callsOnPathsInvoke(write, sites[0]); ok {
+	if mn, mx, ok := callsOnPathsInvoke(inner, sites[0]); ok {
 		r.Ob("A3", FnName(write)+"/writer-once", p.Pos(write.Pos()), mx <= 1, true, fmt.Sprintf("writer invoked between %d and %d times per path", mn, mx))
 	}
 	// callers of write
@@ -189,4 +196,51 @@ func callsOnPathsInvoke(f *ssa.Function, site *ssa.Call) (min, max int, ok bool)
 		}
 	}
 	return min, max, true
+}
+
+// climbWriterChain: the writer invocation may sit in a private helper of the function that
+// finishes the line; climb through unexported functions that have exactly one caller whose own
+// caller is again unique (the function below the one several finalisers call is "write").
+func climbWriterChain(p *Prog, inner *ssa.Function) (write *ssa.Function, bad string) {
+	write = inner
+	for hops := 0; hops < 3; hops++ {
+		cs := callersOf(p, write, "")
+		if len(cs) != 1 || write.Object() == nil || write.Object().Exported() {
+			break
+		}
+		var up *ssa.Function
+		for f := range cs {
+			up = f
+		}
+		ups := callersOf(p, up, "")
+		if len(ups) != 1 || up.Object() == nil || up.Object().Exported() {
+			break
+		}
+		if _, mx, ok := callsOnPaths(up, write); !ok || mx > 1 {
+			bad = FnName(up) + " can call " + FnName(write) + " more than once per path"
+		}
+		write = up
+	}
+	return write, bad
+}
+
+// writeAndMsg: the function that hands the event to the writer (with its private helpers) and its
+// single caller, the finaliser core.
+func writeAndMsg(p *Prog) (write, msg *ssa.Function) {
+	_, fns := eventWriterCalls(p)
+	if len(fns) != 1 {
+		return nil, nil
+	}
+	for f := range fns {
+		write = f
+	}
+	write, _ = climbWriterChain(p, write)
+	cs := callersOf(p, write, "")
+	if len(cs) != 1 {
+		return write, nil
+	}
+	for f := range cs {
+		msg = f
+	}
+	return write, msg
 }
